@@ -409,8 +409,8 @@ def campaign(mod, prop_id, tier, seed_value, jobs, scratch, known, fixed,
             stats.harness.append((traceback.format_exc(), None))
 
     # 6. minimise and report
-    shrink_budget = 0 if a.no_shrink else (
-        {'quick': 300, 'thorough': 3000}[tier])
+    shrink_budget = 0 if a.no_shrink else getattr(
+        mod, 'SHRINK_BUDGET', {'quick': 300, 'thorough': 3000})[tier]
     items = sorted(stats.buckets.items(), key=lambda kv: kv[0])
     jobs_m = [(prop_id, tier, scratch, known_ids, env, k, v['case'],
                shrink_budget, i) for i, (k, v) in enumerate(items)]
